@@ -27,7 +27,7 @@ STUBS = ["vp.memfs mounted (file_parser.open, os façade, finder.tqdm identity, 
 ASSUMPTIONS = ["-p filtering is modelled as restricting the configuration dict to the selected platforms (what __main__/tree do after "
                "loading); the TOML/CLI parsing around it is outside the claim",
                "once the symbolic bits are decided all data is concrete and the real code runs untraced on that leaf"]
-BOUNDS = {"quick": "8 scenario templates x 3 commands; every assignment of commands to 3 platforms, 2 of the 6 orders, 3 of the 8 platform subsets, 2 -D bits",
+BOUNDS = {"quick": "9 scenario templates x 3 commands; every assignment of commands to 3 platforms, 2 of the 6 orders, 3 of the 8 platform subsets, 2 -D bits",
           "thorough": "all 6 orders and all 8 subsets"}
 EXPLANATION = ("Assignment, order, subset and -D bits are bounded symbolic values exhausted by CrossHair; on each leaf the real finder.find is run "
                "on the full configuration, on each command alone, on the permuted and on the filtered configuration, and all results are "
@@ -138,7 +138,19 @@ def t_computed_inc(d):
     return files, cmds
 
 
-TEMPLATES = {"computed_inc": t_computed_inc, "same_file_inc": t_same_file_inc, "inc_paths": t_inc_paths, "shared_define": t_shared_define, "pragma_once": t_pragma_once, "undef_cmdline": t_undef_cmdline,
+def t_forced_inc(d):
+    """commands of one file that differ only in their -include header (same -D, same -I)"""
+    files = {
+        "/r/main.c": ["#ifdef CFG_A", "@", "#endif", "#ifdef CFG_B", "@", "#else", "@", "#endif", "@"],
+        "/r/cfg_a.h": ["#define CFG_A", "@"],
+        "/r/cfg_b.h": ["#define CFG_B", "@", "#ifdef CFG_A", "@", "#endif"],
+    }
+    cmds = [scen.entry("/r/main.c", [], [], ["/r/cfg_a.h"]), scen.entry("/r/main.c", [], [], ["/r/cfg_b.h"] if d[0] else ["/r/cfg_a.h", "/r/cfg_b.h"]),
+            scen.entry("/r/main.c", ["CFG_B"] if d[1] else [], [], [])]
+    return files, cmds
+
+
+TEMPLATES = {"forced_inc": t_forced_inc, "computed_inc": t_computed_inc, "same_file_inc": t_same_file_inc, "inc_paths": t_inc_paths, "shared_define": t_shared_define, "pragma_once": t_pragma_once, "undef_cmdline": t_undef_cmdline,
              "same_file_two_defs": t_same_file_two_defs, "two_dirs": t_two_dirs}
 PLATS = ["p", "q", "r"]
 
@@ -271,8 +283,8 @@ def obligations(tier, known):
 
 
 CLAIM = ("For every assignment of three commands to up to three platforms, every command order, every selected subset and every -D choice in "
-         "8 scenarios with shared headers (guards, #pragma once, #undef of command-line macros, same header from two directories, a computed include), the "
+         "9 scenarios with shared headers (guards, #pragma once, #undef of command-line macros, same header from two directories, a computed include, commands differing only in -include), the "
          "full analysis equals the union of fresh single-command analyses, the reference preprocessor, its own permutations and the "
          "projection of itself - exhausted by CrossHair.")
-LEVEL_NOTE = ("Trusted: CrossHair/z3 for the enumeration, vp/memfs.py, vp/refs/ref_cpp.py (gcc -E on replay). Bounded: 8 templates, 3 commands, "
+LEVEL_NOTE = ("Trusted: CrossHair/z3 for the enumeration, vp/memfs.py, vp/refs/ref_cpp.py (gcc -E on replay). Bounded: 9 templates, 3 commands, "
               "3 platforms. CLI -p parsing is outside.")
